@@ -127,7 +127,7 @@ def r20_1(ctx, fx: Effects, only: Optional[Set[FunctionInfo]] = None) -> None:
                 ctx.ok("R20.1", inst, "whitelisted: " + w)
                 continue
             ctx.fail("R20.1", fn, ef.node, f"an operation-reachable statement writes shared state ({why}): a later or concurrent call can observe it")
-    ctx.count("R20.1", n, 40 if only is None else 10, "stores in operation-reachable functions")
+    ctx.count("R20.1", n, 110 if only is None else 10, "stores in operation-reachable functions")
     ctx.extra["effects_with_unknown_root"] = unknown_roots
     # mutating calls into shared objects through repo methods are covered because the callee's own effects are in scope
     # closures must not capture-and-mutate
@@ -316,7 +316,7 @@ def r20_5(ctx) -> None:
             if isinstance(node, (ast.Global, ast.Nonlocal)):
                 ctx.fail("R20.5", fn, node, "global / nonlocal statement")
     ctx.ok("R20.5", "default arguments", f"{n} default values: no mutable display or call")
-    ctx.count("R20.5", n, 60, "default argument values")
+    ctx.count("R20.5", n, 120, "default argument values")
 
 
 MEMO_WHITELIST = {
